@@ -41,6 +41,9 @@ func init() {
 		"(*bytes.Buffer).Bytes":       extBufferBytes,
 		"(*bytes.Buffer).Write":       extBufferWrite,
 	}
+	for _, f := range extHandlersLate {
+		f()
+	}
 }
 
 func one(st *State, rets ...Val) []Outcome { return []Outcome{{St: st, Ret: rets}} }
